@@ -312,6 +312,18 @@ def same_manager(a_tasks, a_opts, a_ctx, other):
     return None
 
 
+def _use_manager(opm):
+    """every read access of a manager (results dropped): fills whatever the object memoises"""
+    for t in range(opm.ntasks):
+        opm.get_task(t)
+    for f in (opm.to_dict, lambda: str(opm), lambda: list(opm.tasks) if hasattr(opm, "tasks") else None,
+              lambda: opm.search(zz_same=100), lambda: opm.find(zz_same=100)):
+        try:
+            f()
+        except Exception:
+            pass
+
+
 def check_opm(ctx, hyruns, case):
     shape, vkind = case["shape"], case["vkind"]
     context = json.loads(json.dumps(CONTEXTS[case["ctx"]]))
@@ -332,6 +344,11 @@ def check_opm(ctx, hyruns, case):
                 # history: under the flat context the manager object held another product (other option
                 # names) before; the product that is judged is built on the same object afterwards
                 opm.from_cartesian_product(zz_warmup=[1, 2, 3], zz_other=["q", "r"])
+                _use_manager(opm)
+                # ... and then a product with exactly as many tasks as the judged one (one option, other names):
+                # anything derived from the tasks and refreshed only "when something changed" must notice
+                opm.from_cartesian_product(zz_same=list(range(100, 100 + len(ref))))
+                _use_manager(opm)
                 ctx.count("opm.rebuilt_on_used_manager")
             opm.from_cartesian_product(**{o[0]: o[1] for o in opts})
             ntasks = opm.ntasks
